@@ -4,15 +4,15 @@ CONSTANTS
   Slack = {1, 2, 3}
   Alpha = {0, 1}
   MaxHist = 6
-  MaxWrite = 3
-  MaxM = 4
-  MaxO = 4
-  MaxSeqs = 2
+  MaxWrite = 2
+  MaxM = 3
+  MaxO = 3
+  MaxSeqs = 1
   MaxLit = 1
   Grow = TRUE
   EmitOps = FALSE
+CONSTRAINT Bound
 INVARIANT Inv
 PROPERTY Refines
-CONSTRAINT Bound
 VIEW View
 CHECK_DEADLOCK FALSE
